@@ -183,6 +183,16 @@ def run(ctx):
                 check_string(ctx, pre + tl, 'prefix')
         ctx.count('prefixed_strings', len(prefixes) * len(tails))
 
+    # characters that mean something to Python's own string machinery (a refusal is reported with a message built from the
+    # rejected string: %-formatting, str.format braces, backslashes) - the verdict and the exception class do not depend
+    # on them
+    fmt = ['a.b%s', '%.%', 'a%d.b', 'org.example.Load100%', '/a%', '/a/%s', 'M%s', 'M%', ':1.%d', '%(x)s.a', 'a.%%', 'a.b%',
+           'a.{0}', '{}.{}', 'a.b{', '/a/{x}', 'M{0}', 'a.b\\', 'a\\n.b', 'a.b%c', '%s', '%', '{', 'a.b%(', 'a.%1$s']
+    for s_ in fmt:
+        check_string(ctx, s_, 'format-chars')
+        check_string(ctx, s_, 'format-chars-reversed', list(reversed(VALIDATORS)))
+    ctx.count('format_char_strings', len(fmt))
+
     # long strings with a single defect late in the string (object paths have no length limit; a validator that looks at
     # a prefix only, or stops looking after N characters, shows here): a valid long string, then the same with one
     # character replaced / one element emptied at a late position
@@ -226,6 +236,7 @@ def run(ctx):
               ':1.2\n', 'a.b\r', '\na.b', 'M\0', '/a/b\n', 'a.b\n.c', 'org.freedesktop.DBus.Error.Out Of Range',
               'org.freedesktop.DBus.a..b', 'org.freedesktop.DBus.', 'org.freedesktop.DBus.1x', 'org.freedesktop.DBus.Peer',
               '::1.2', ':1.2:3', ':a.b:c', 'a-1.b', 'a.-1', '//', '//a',
+              'a.b%s', '%.%', 'org.example.Load100%', 'M%s', '/a/%s', 'a.{0}', ':1.%d',
               '/' + 'a' * 300 + '-x', '/' + '/'.join(['seg'] * 80) + '/uuid-with-hyphens', '/a' * 200 + '//b', '/a' * 200 + '/']
     if shard_i == 0:
         constructor_matrix(ctx, names)
